@@ -1,4 +1,4 @@
-"""C17 — morphometrics obey their defining recurrences and path counts (default backend; backend agreement is C04)."""
+"""C17 — morphometrics obey their defining recurrences and path counts (backend drawn per case: fastcore / igraph / networkx)."""
 import math
 
 import numpy as np
@@ -49,100 +49,103 @@ def run(ctx):
         ids = f['ids']
         T = '(mk %s)' % term(list(zip(f['ids'], f['parents'])))
         nt = F.nontrivial(f)
-        kind = str(rng.choice(['strahler', 'strahler', 'sfc', 'sfc', 'bending', 'leafflow', 'misc']))
-        desc = dict(forest=f, op=kind)
-        if kind == 'strahler':
-            method = str(rng.choice(['standard', 'greedy']))
-            par = dict(zip(ids, f['parents']))
-            leaves = [i for i in ids if i not in set(f['parents']) and par[i] >= 0]
-            ign = [int(v) for v in rng.choice(leaves, size=int(rng.integers(0, min(3, len(leaves)) + 1)), replace=False)] if leaves and rng.random() < 0.4 else []
-            p = dict(method=method, to_ignore=ign)
-            desc.update(params=p)
-            x = F.mk_neuron(f)
-            st, res = guarded(lambda: col(navis.strahler_index(x.copy(), method=method, to_ignore=list(ign), min_twig_size=None), 'strahler_index'))
-            jobs.append(dict(desc=desc, nt=nt, key=(str(ids), str(f['parents']), kind, str(p)),
-                             exprs=['strahler_all %s %s %s' % (term(method == 'greedy'), term(ign), T)],
-                             cmp=_cmp_strahler(st, res, f, ign)))
-        elif kind in ('sfc', 'bending'):
-            skind = str(rng.choice(['mixed', 'mixed', 'mixed', 'nopre', 'nopost']))
-            if kind == 'bending':
-                skind = 'mixed'
-            cn, pre, post = synapses(rng, f, skind)
-            x = F.mk_neuron(f, connectors=cn)
-            if kind == 'sfc':
-                mode = str(rng.choice(['centrifugal', 'centripetal', 'sum']))
-                p = dict(mode=mode, pre=pre, post=post)
+        be = str(rng.choice(['fastcore', 'fastcore', 'fastcore', 'igraph', 'nx']))
+        ctx.count('backend:' + be)
+        with F.backend(be):
+            kind = str(rng.choice(['strahler', 'strahler', 'sfc', 'sfc', 'bending', 'leafflow', 'misc']))
+            desc = dict(forest=f, op=kind, backend=be)
+            if kind == 'strahler':
+                method = str(rng.choice(['standard', 'greedy']))
+                par = dict(zip(ids, f['parents']))
+                leaves = [i for i in ids if i not in set(f['parents']) and par[i] >= 0]
+                ign = [int(v) for v in rng.choice(leaves, size=int(rng.integers(0, min(3, len(leaves)) + 1)), replace=False)] if leaves and rng.random() < 0.4 else []
+                p = dict(method=method, to_ignore=ign)
                 desc.update(params=p)
-                st, res = guarded(lambda: col(navis.synapse_flow_centrality(x, mode=mode, inplace=False) if False else _sfc(navis, x, mode), 'synapse_flow_centrality'))
-                code = {'centrifugal': 0, 'centripetal': 1, 'sum': 2}[mode]
+                x = F.mk_neuron(f)
+                st, res = guarded(lambda: col(navis.strahler_index(x.copy(), method=method, to_ignore=list(ign), min_twig_size=None), 'strahler_index'))
                 jobs.append(dict(desc=desc, nt=nt, key=(str(ids), str(f['parents']), kind, str(p)),
-                                 exprs=['synapse_flow %d %s %s %s' % (code, T, term(pre), term(post))],
-                                 cmp=_cmp_nodes(st, res, 'synapse_flow_centrality', 'post->pre path count (with the fork rule)')))
-            else:
-                if not pre or not post:
-                    continue
-                p = dict(pre=pre, post=post)
-                desc.update(params=p)
-                st, res = guarded(lambda: col(_bend(navis, x), 'bending_flow'))
-                jobs.append(dict(desc=desc, nt=nt, key=(str(ids), str(f['parents']), kind, str(p)),
-                                 exprs=['map (fun r => (rid r, bending_at %s %s %s (rid r))) (filter (fun r => Nat.leb 2 (nchildren %s (rid r))) %s)'
-                                        % (T, term(pre), term(post), T, T)],
-                                 cmp=_cmp_nodes(st, res, 'bending_flow', 'post->pre paths turning at the branch point', subset=True)))
-        elif kind == 'leafflow':
-            if not any(p >= 0 for p in f['parents']):
-                continue   # no tips at all
-            x = F.mk_neuron(f)
-            desc.update(params={})
-            st, res = guarded(lambda: col(_lf(navis, x), 'flow_centrality'))
-            jobs.append(dict(desc=desc, nt=nt, key=(str(ids), str(f['parents']), kind),
-                             exprs=['leaf_flow %s' % T], cmp=_cmp_leafflow(st, res, f)))
-        else:
-            # segregation index, tortuosity, segment_analysis: numeric checks on outputs
-            x = F.mk_neuron(f)
-            comps = [dict(presynapses=int(a), postsynapses=int(b)) for a, b in rng.integers(0, 9, size=(int(rng.integers(2, 6)), 2))]
-            if sum(c['presynapses'] + c['postsynapses'] for c in comps) == 0:
-                comps[0]['presynapses'] = 3
-            sep = [dict(presynapses=int(a), postsynapses=0) if i % 2 else dict(presynapses=0, postsynapses=int(a)) for i, a in enumerate(rng.integers(1, 9, size=int(rng.integers(2, 6))))]
-            ident = [dict(presynapses=int(2 * m), postsynapses=int(3 * m)) for m in rng.integers(1, 6, size=int(rng.integers(2, 6)))]
-            ctx.case((str(comps), 'seg'), nontrivial=True)
-            ctx.count('op:segregation_index')
-            for name, cs, want in (('random', comps, None), ('separated', sep, 1.0), ('identical', ident, 0.0)):
-                st, v = guarded(navis.morpho.mmetrics.segregation_index, [dict(c) for c in cs])
-                d = dict(op='segregation_index', compartments=cs, kind=name)
-                if st != 'ok':
-                    ctx.violation('segregation_index raised', d, v)
-                elif not (-1e-9 <= v <= 1 + 1e-9):
-                    ctx.violation('segregation index outside [0, 1]', d, v)
-                elif want is not None and abs(v - want) > 1e-9:
-                    ctx.violation('segregation index is not %s for a %s mixture' % (want, name), d, v)
-            if len(ids) >= 2 and any(p >= 0 for p in f['parents']):
-                st, tv = guarded(navis.tortuosity, x)
-                d = dict(desc, op='tortuosity')
-                ctx.case((str(ids), str(f['xyz']), 'tort'), nontrivial=nt)
-                ctx.count('op:tortuosity')
-                if st != 'ok':
-                    ctx.violation('tortuosity raised', d, tv)
-                elif not (tv >= 1 - 1e-9):
-                    ctx.violation('tortuosity below 1', d, float(tv))
-                # straight chain
-                n = int(rng.integers(2, 9))
-                dvec = rng.normal(size=3)
-                ts = np.sort(rng.uniform(0, 10, size=n))
-                sf = dict(ids=list(range(1, n + 1)), parents=[-1] + list(range(1, n)), xyz=[tuple(float(v) for v in dvec * t_) for t_ in ts])
-                if len(set(ts)) == n:
-                    st, tv = guarded(navis.tortuosity, F.mk_neuron(sf))
-                    if st != 'ok' or abs(tv - 1) > 1e-9:
-                        ctx.violation('tortuosity of a straight segment is not 1', dict(op='tortuosity', forest=sf), tv if st != 'ok' else float(tv))
-                st, sa = guarded(navis.segment_analysis, x)
-                d = dict(desc, op='segment_analysis')
-                ctx.case((str(ids), str(f['xyz']), 'sa'), nontrivial=nt)
-                ctx.count('op:segment_analysis')
-                if st != 'ok':
-                    ctx.violation('segment_analysis raised', d, sa)
+                                 exprs=['strahler_all %s %s %s' % (term(method == 'greedy'), term(ign), T)],
+                                 cmp=_cmp_strahler(st, res, f, ign)))
+            elif kind in ('sfc', 'bending'):
+                skind = str(rng.choice(['mixed', 'mixed', 'mixed', 'nopre', 'nopost']))
+                if kind == 'bending':
+                    skind = 'mixed'
+                cn, pre, post = synapses(rng, f, skind)
+                x = F.mk_neuron(f, connectors=cn)
+                if kind == 'sfc':
+                    mode = str(rng.choice(['centrifugal', 'centripetal', 'sum']))
+                    p = dict(mode=mode, pre=pre, post=post)
+                    desc.update(params=p)
+                    st, res = guarded(lambda: col(navis.synapse_flow_centrality(x, mode=mode, inplace=False) if False else _sfc(navis, x, mode), 'synapse_flow_centrality'))
+                    code = {'centrifugal': 0, 'centripetal': 1, 'sum': 2}[mode]
+                    jobs.append(dict(desc=desc, nt=nt, key=(str(ids), str(f['parents']), kind, str(p)),
+                                     exprs=['synapse_flow %d %s %s %s' % (code, T, term(pre), term(post))],
+                                     cmp=_cmp_nodes(st, res, 'synapse_flow_centrality', 'post->pre path count (with the fork rule)')))
                 else:
-                    tot, cab = float(sa['length'].sum()), float(x.cable_length)
-                    if abs(tot - cab) > 1e-5 * max(1, cab):   # cable_length is float32-accurate under the compiled backend
-                        ctx.violation('per-segment lengths do not sum to the cable length', d, dict(sum=tot, cable=cab))
+                    if not pre or not post:
+                        continue
+                    p = dict(pre=pre, post=post)
+                    desc.update(params=p)
+                    st, res = guarded(lambda: col(_bend(navis, x), 'bending_flow'))
+                    jobs.append(dict(desc=desc, nt=nt, key=(str(ids), str(f['parents']), kind, str(p)),
+                                     exprs=['map (fun r => (rid r, bending_at %s %s %s (rid r))) (filter (fun r => Nat.leb 2 (nchildren %s (rid r))) %s)'
+                                            % (T, term(pre), term(post), T, T)],
+                                     cmp=_cmp_nodes(st, res, 'bending_flow', 'post->pre paths turning at the branch point', subset=True)))
+            elif kind == 'leafflow':
+                if not any(p >= 0 for p in f['parents']):
+                    continue   # no tips at all
+                x = F.mk_neuron(f)
+                desc.update(params={})
+                st, res = guarded(lambda: col(_lf(navis, x), 'flow_centrality'))
+                jobs.append(dict(desc=desc, nt=nt, key=(str(ids), str(f['parents']), kind),
+                                 exprs=['leaf_flow %s' % T], cmp=_cmp_leafflow(st, res, f)))
+            else:
+                # segregation index, tortuosity, segment_analysis: numeric checks on outputs
+                x = F.mk_neuron(f)
+                comps = [dict(presynapses=int(a), postsynapses=int(b)) for a, b in rng.integers(0, 9, size=(int(rng.integers(2, 6)), 2))]
+                if sum(c['presynapses'] + c['postsynapses'] for c in comps) == 0:
+                    comps[0]['presynapses'] = 3
+                sep = [dict(presynapses=int(a), postsynapses=0) if i % 2 else dict(presynapses=0, postsynapses=int(a)) for i, a in enumerate(rng.integers(1, 9, size=int(rng.integers(2, 6))))]
+                ident = [dict(presynapses=int(2 * m), postsynapses=int(3 * m)) for m in rng.integers(1, 6, size=int(rng.integers(2, 6)))]
+                ctx.case((str(comps), 'seg'), nontrivial=True)
+                ctx.count('op:segregation_index')
+                for name, cs, want in (('random', comps, None), ('separated', sep, 1.0), ('identical', ident, 0.0)):
+                    st, v = guarded(navis.morpho.mmetrics.segregation_index, [dict(c) for c in cs])
+                    d = dict(op='segregation_index', compartments=cs, kind=name)
+                    if st != 'ok':
+                        ctx.violation('segregation_index raised', d, v)
+                    elif not (-1e-9 <= v <= 1 + 1e-9):
+                        ctx.violation('segregation index outside [0, 1]', d, v)
+                    elif want is not None and abs(v - want) > 1e-9:
+                        ctx.violation('segregation index is not %s for a %s mixture' % (want, name), d, v)
+                if len(ids) >= 2 and any(p >= 0 for p in f['parents']):
+                    st, tv = guarded(navis.tortuosity, x)
+                    d = dict(desc, op='tortuosity')
+                    ctx.case((str(ids), str(f['xyz']), 'tort'), nontrivial=nt)
+                    ctx.count('op:tortuosity')
+                    if st != 'ok':
+                        ctx.violation('tortuosity raised', d, tv)
+                    elif not (tv >= 1 - 1e-9):
+                        ctx.violation('tortuosity below 1', d, float(tv))
+                    # straight chain
+                    n = int(rng.integers(2, 9))
+                    dvec = rng.normal(size=3)
+                    ts = np.sort(rng.uniform(0, 10, size=n))
+                    sf = dict(ids=list(range(1, n + 1)), parents=[-1] + list(range(1, n)), xyz=[tuple(float(v) for v in dvec * t_) for t_ in ts])
+                    if len(set(ts)) == n:
+                        st, tv = guarded(navis.tortuosity, F.mk_neuron(sf))
+                        if st != 'ok' or abs(tv - 1) > 1e-9:
+                            ctx.violation('tortuosity of a straight segment is not 1', dict(op='tortuosity', forest=sf), tv if st != 'ok' else float(tv))
+                    st, sa = guarded(navis.segment_analysis, x)
+                    d = dict(desc, op='segment_analysis')
+                    ctx.case((str(ids), str(f['xyz']), 'sa'), nontrivial=nt)
+                    ctx.count('op:segment_analysis')
+                    if st != 'ok':
+                        ctx.violation('segment_analysis raised', d, sa)
+                    else:
+                        tot, cab = float(sa['length'].sum()), float(x.cable_length)
+                        if abs(tot - cab) > 1e-5 * max(1, cab):   # cable_length is float32-accurate under the compiled backend
+                            ctx.violation('per-segment lengths do not sum to the cable length', d, dict(sum=tot, cable=cab))
     flat = [e for j in jobs for e in j['exprs']]
     res = coqio.eval_terms('C17', ['model.Forest', 'model.Dist', 'model.Prune', 'model.Strahler', 'model.Flow'], flat, shard=80)
     pos = 0
@@ -180,7 +183,12 @@ def _cmp_nodes(st, res, name, what, subset=False):
         model = {int(a): int(b) for a, b in r[0]}
         bad = [(i, res.get(i), v) for i, v in model.items() if res.get(i) != v]
         if bad:
-            ctx.violation('%s differs from the %s' % (name, what), desc, dict(first=bad[:6], n=len(bad)))
+            # known (same defect as C04:sfc-python-forest-totals): without navis-fastcore the synapse totals are taken over the whole
+            # neuron instead of the node's fragment, so skeletons with several fragments get larger counts
+            key = None
+            if name == 'synapse_flow_centrality' and desc.get('backend') in ('igraph', 'nx') and sum(1 for p_ in desc['forest']['parents'] if p_ < 0) > 1:
+                key = 'C17:sfc-python-forest-totals'
+            ctx.violation('%s differs from the %s' % (name, what), desc, dict(first=bad[:6], n=len(bad)), key=key)
     return cmp
 
 
